@@ -680,7 +680,7 @@ def _decorate(ch: core.Chooser, name: str, spec: dict) -> dict:
     """Optional keyword arguments the signature accepts (seeded, sparse)."""
     kwargs = dict(spec.get("kwargs", {}))
     polys = [a["poly"] for a in spec["args"] if isinstance(a, dict) and "poly" in a]
-    if name in WHERE_OPS and polys and ch.chance(0.2):
+    if name in WHERE_OPS and polys and ch.chance(0.35):
         shapes = [tuple(p["shape"]) for p in polys]
         try:
             shape = tuple(numpy.broadcast_shapes(*shapes))
